@@ -151,8 +151,22 @@ func textForms() []string {
 		out = append(out, fmt.Sprintf("action %#x: %q %q", uint32(a), a.String(), string(b)))
 		scribble(b)
 	}
+	// architecture words: the named ones, unnamed ones, and one that no earlier call has converted
+	fresh := 0x10000 + uint32(atomic.AddUint32(&c13FreshArch, 1))
+	for _, v := range append([]uint32{uint32(arch.X86_64.ID), uint32(arch.I386.ID), uint32(arch.ARM.ID), uint32(arch.AARCH64.ID), 0, 1, 0x28, 0x40000028 ^ 1, 0xc000003e ^ 0x80000000, 0xdeadbeef, 0xffffffff}, fresh) {
+		s := arch.AuditArch(v).String()
+		if v == fresh {
+			if s != fmt.Sprintf("unknown[%d]", v) && !strings.Contains(s, fmt.Sprint(v)) && !strings.Contains(s, fmt.Sprintf("%x", v)) {
+				out = append(out, fmt.Sprintf("audit arch (fresh value %#x): %q does not mention the value", v, s))
+			}
+			continue // differs from call to call by construction
+		}
+		out = append(out, fmt.Sprintf("audit arch %#x: %q", v, s))
+	}
 	return out
 }
+
+var c13FreshArch uint32
 
 // c13Dump: digest of compiling the fixed policy list + all text forms, for
 // comparison between processes.
